@@ -425,6 +425,39 @@ def check(facts, rep, tier, cfg):
     check_refusal_is_broken_pipe(facts, rep, crate, "C08.R10")
     rep.rule("C08.R11", "outside the wind-down every error of the WebSocket sink / source is propagated with `?` (the loop ends and the task winds down)")
     check_transport_errors_end_loops(facts, rep, crate)
+    # ---- R12 the accepting calls hand out whatever they take off their queue
+    rep.rule("C08.R12", "accept_stream_channel / next_bind_request / get_datagram return the item they dequeue: the dequeue is not inside a loop that "
+                        "can discard items (a stream queued before the connection ended still holds the data delivered to it; filtering it out on "
+                        "a flag the teardown sets loses that data)")
+    k12 = 0
+    for b in crate.bodies:
+        if "Multiplexor" not in b.path or "::tests::" in b.path:
+            continue
+        for bi, t in b.calls():
+            c = callee(t)
+            if not (c and c["name"] in ("recv", "poll_recv", "try_recv") and "Receiver" in c["path"] and
+                    any(k in c["path"] for k in ("MuxStream", "BindRequest", "Datagram"))):
+                continue
+            k12 += 1
+            rep.analysed(b)
+            w12 = "%s (%s)" % (loc_str(t["loc"]), b.path)
+            key12 = "dequeue-not-filtered/%s" % b.path.split("::{")[0]
+            in_loop = bool(b.loop_headers_containing(bi))
+            cur = b
+            while not in_loop and cur.kind in ("Closure",) and cur.parent and cur.parent in facts.by_dp:
+                par = facts.by_dp[cur.parent]
+                for pbi, pblk in enumerate(par.blocks):
+                    for st in pblk["stmts"]:
+                        if st["k"] == "Assign" and st["rv"]["k"] == "Aggregate" and st["rv"]["agg"].get("a") in ("Closure", "Coroutine") and \
+                                st["rv"]["agg"].get("def") == cur.dp and par.loop_headers_containing(pbi):
+                            in_loop = True
+                cur = par
+            if in_loop:
+                rep.bad("C08.R12", key12, w12, "the dequeue sits in a loop: an item taken off the queue can be dropped and the next one taken instead "
+                                               "(e.g. streams the teardown has already marked closed, whose delivered data is then lost)")
+            else:
+                rep.ok("C08.R12", key12, w12, "one dequeue per call, handed to the caller")
+    rep.floor("C08.R12", "dequeues of the accepting calls", k12, 3)
     import adapter
     adapter.check_adapter(facts, rep, "C08.S8")
     rep.rule("C08.S7", "who-may: the functions that touch the critical resources behind this property are those of the reference tree (flow table, closed flag, per-stream / datagram / outbound queues, last-pong timestamp, client id maps, shared TLS identity)")
